@@ -24,4 +24,6 @@ if [ -n "${DEMO_PKG:-}" ]; then
   git apply -R $SRC/patch.diff
   echo "SEED $ID: demonstration WITHOUT the change:"; go test -vet=off -count=1 -run "$DEMO_RUN" ./$DEMO_PKG 2>&1 | grep -E "^(--- |ok|FAIL|PASS)" | sort | uniq -c | head -8
 fi
-cd /verif; git -C /repo worktree remove --force $WT; find /verif/build -maxdepth 1 -name 'harness-alt-*' -exec rm -rf {} +
+cd /verif; git -C /repo worktree remove --force $WT
+# only this run's build copy: other seedchecks may be running
+rm -rf /verif/build/harness-alt-$(printf %s "$WT" | sha1sum | cut -c1-8)
